@@ -116,15 +116,36 @@ def toBool : JVal → Bool
 
 /-! ### double -/
 
-/-- an allowed double result: one bit pattern, or any NaN -/
+/-- `x` is the integer nearest to `a` among those representable with 53 significant bits, ties to
+the even mantissa (IEEE-754 round-to-nearest-even of an integer below 2^64 never overflows):
+below 2^53 every integer is representable; in the binade [2^(52+k), 2^(53+k)) the representable
+integers are the multiples of 2^k. -/
+def IsRNE (a x : Nat) : Prop :=
+  if a < 2 ^ 53 then x = a
+  else
+    let k := Nat.log2 a - 52
+    x % 2 ^ k = 0 ∧ 2 * (x - a) ≤ 2 ^ k ∧ 2 * (a - x) ≤ 2 ^ k ∧
+      ((2 * (x - a) = 2 ^ k ∨ 2 * (a - x) = 2 ^ k) → x / 2 ^ k % 2 = 0)
+
+instance (a x : Nat) : Decidable (IsRNE a x) := by unfold IsRNE; infer_instance
+
+/-- `b` is the bit pattern of the double nearest to the integer `v` -/
+def isNearestBits (v : Int) (b : Nat) : Bool :=
+  match decode b with
+  | .fin neg num den => neg == decide (v < 0) && num % den == 0 && decide (IsRNE v.natAbs (num / den))
+  | _ => false
+
+/-- an allowed double result: one bit pattern, the double nearest to an integer, or any NaN -/
 inductive DPat where
   | bits (b : Nat)
+  | rne (v : Int)
   | anyNaN
   deriving Repr, DecidableEq
 
 def DPat.matches (p : DPat) (b : Nat) : Bool :=
   match p with
   | .bits x => x == b
+  | .rne v => isNearestBits v b
   | .anyNaN => decode b == .nan
 
 structure DAns where
@@ -137,7 +158,8 @@ def DAns.allows (a : DAns) (b : Nat) (e : Errno) : Prop :=
 
 instance (a : DAns) (b : Nat) (e : Errno) : Decidable (a.allows b e) := by unfold DAns.allows; infer_instance
 
-/-- the double nearest to an integer (ties to even), computed by the independent reference `roundNE` -/
+/-- the double nearest to an integer (ties to even), computed by the independent reference
+`roundNE`; the driver prints it as the expected pattern for `DPat.rne` -/
 def nearestDouble (v : Int) : Nat :=
   (if v < 0 then 2 ^ 63 else 0) + (roundNE v.natAbs 1).toNat
 
@@ -156,7 +178,7 @@ def ofTextDouble (strtod : Bytes → DRes) (s : Bytes) : DAns :=
 def toDouble (strtod : Bytes → DRes) : JVal → DAns
   | .null => ⟨[.bits 0], [.none]⟩
   | .bool b => ⟨[.bits (if b then 0x3FF0000000000000 else 0)], [.none]⟩
-  | .int _ v => ⟨[.bits (nearestDouble v)], [.none]⟩
+  | .int _ v => ⟨[.rne v], [.none]⟩
   | .dbl bits _ => ⟨[.bits bits.toNat], [.none]⟩
   | .str s => ofTextDouble strtod s
   | .arr [] => ⟨[.bits 0], [.none]⟩
